@@ -25,6 +25,7 @@ import (
 // that never compares b (or its El()) with out.
 // aliasHazExempt: helpers whose callers exclude the aliasing.
 var aliasHazExempt = map[string]string{
+	"schemes/ckks.(Evaluator).mulRelinThenAdd": "its two callers MulThenAdd / MulRelinThenAdd return the error 'opOut must be different from op0 and op1' before calling it",
 	"schemes/bgv.(Evaluator).mulRelinThenAdd": "MulThenAdd / MulRelinThenAdd return an error when op0 == opOut or op1 == opOut before calling it (documented: 'will return an error if either op0 == opOut or op1 == opOut')",
 }
 
@@ -77,6 +78,12 @@ func scanAliasHaz(c *core.Ctx) []ob {
 				return nil
 			}
 			switch x := unparen(e).(type) {
+			case *ast.SliceExpr:
+				// op0.Value[:1]: some components of op0
+				if sel, ok := unparen(x.X).(*ast.SelectorExpr); ok && sel.Sel.Name == "Value" {
+					return compOf(&ast.IndexExpr{X: x.X, Index: ast.NewIdent("_")}, depth+1)
+				}
+				return nil
 			case *ast.IndexExpr:
 				sel, ok := unparen(x.X).(*ast.SelectorExpr)
 				if !ok || sel.Sel.Name != "Value" {
@@ -134,6 +141,11 @@ func scanAliasHaz(c *core.Ctx) []ob {
 			case *ast.Ident:
 				// a local polynomial view: c0 := op0.Value[0]
 				o := info.Uses[x]
+				for i := 0; i < sig.Params().Len(); i++ {
+					if sig.Params().At(i) == o && isMetaCarrier(o.Type()) {
+						return []comp{{o, "v"}} // the whole element
+					}
+				}
 				if rhs, _, ok := rd.defsAt(x, o); ok {
 					var res []comp
 					for _, r := range rhs {
@@ -208,6 +220,34 @@ func scanAliasHaz(c *core.Ctx) []ob {
 						}
 					}
 				}
+				// calls of module functions: written arguments according to the write-effect summaries
+				if len(e.reads)+len(e.writes) == 0 {
+					if cs := effFor(c).callees(info, call); len(cs) > 0 {
+						for i, a := range call.Args {
+							comps := compOf(a, 0)
+							if len(comps) == 0 {
+								continue
+							}
+							w := false
+							for _, cf := range cs {
+								if sm := effFor(c).sums[cf]; sm != nil && sm.wParams[i] {
+									w = true
+								}
+							}
+							if w {
+								e.writes = append(e.writes, comps...)
+								// an in-place call also reads what it writes
+								for j, b := range call.Args {
+									if j != i && exprString(unparen(b)) == exprString(unparen(a)) {
+										e.reads = append(e.reads, comps...)
+									}
+								}
+							} else {
+								e.reads = append(e.reads, comps...)
+							}
+						}
+					}
+				}
 				// function-valued operation parameters: evaluate(a, b, out) / evaluate(a, r, out)
 				if id, ok := unparen(call.Fun).(*ast.Ident); ok && len(call.Args) >= 2 {
 					if v, ok := info.Uses[id].(*types.Var); ok {
@@ -244,6 +284,28 @@ func scanAliasHaz(c *core.Ctx) []ob {
 		}
 		var hz []haz
 		step := func(nd ast.Node, s st, record bool) st {
+			// a comparison of an operand with the receiver evaluated on the way makes the rest of the path aware
+			if cond, isExpr := nd.(ast.Expr); isExpr {
+				var seen []types.Object
+				ast.Inspect(cond, func(x ast.Node) bool {
+					if be, ok := x.(*ast.BinaryExpr); ok && (be.Op == token.EQL || be.Op == token.NEQ) {
+						a, b := rootOf(be.X), rootOf(be.Y)
+						if a == types.Object(outP) && b != nil {
+							seen = append(seen, b)
+						}
+						if b == types.Object(outP) && a != nil {
+							seen = append(seen, a)
+						}
+					}
+					return true
+				})
+				if len(seen) > 0 {
+					s = clone(s)
+					for _, o := range seen {
+						delete(s, "@unaware|"+o.Name())
+					}
+				}
+			}
 			evs := eventsOf(nd)
 			if len(evs) == 0 {
 				return s
@@ -252,7 +314,10 @@ func scanAliasHaz(c *core.Ctx) []ob {
 			for _, e := range evs {
 				if record {
 					for _, r := range e.reads {
-						if r.root == types.Object(outP) || aware[r.root] {
+						if r.root == types.Object(outP) {
+							continue
+						}
+						if _, unaware := s["@unaware|"+r.root.Name()]; !unaware {
 							continue
 						}
 						isIn := false
@@ -265,6 +330,9 @@ func scanAliasHaz(c *core.Ctx) []ob {
 							continue
 						}
 						for k, wp := range s {
+							if strings.HasPrefix(k, "@") {
+								continue
+							}
 							parts := strings.SplitN(k, "|", 2)
 							// the write must not have come from a call that read this very operand
 							if mayEq(parts[0], r.idx) && !strings.Contains(parts[1], "|"+r.root.Name()+"|") {
@@ -287,7 +355,12 @@ func scanAliasHaz(c *core.Ctx) []ob {
 			return s
 		}
 		g := buildCFG(info, fd.Body)
-		in := forward(g, st{}, nil, func(nd ast.Node, s st) st { return step(nd, s, false) },
+		entry := st{}
+		for _, p := range ins {
+			entry["@unaware|"+p.Name()] = token.NoPos
+		}
+		_ = aware
+		in := forward(g, entry, nil, func(nd ast.Node, s st) st { return step(nd, s, false) },
 			func(a, b st) st {
 				r := clone(a)
 				for k, v := range b {
